@@ -447,3 +447,122 @@ package types
 //@ func (stdb *MetaDB) PutLastRewardHash(v)
 //@   trusted
 //@   modifies everything
+
+// ---- getters of the active governance parameters (C10-C16: every rule reads its own parameter)
+//@ func (r *GovParams) Version()
+//@   nopanic
+//@   requires r != nil
+//@   ensures result == r.version   [C15]
+
+//@ func (r *GovParams) MaxValidatorCnt()
+//@   nopanic
+//@   requires r != nil
+//@   ensures result == r.maxValidatorCnt   [C15]
+
+//@ func (r *GovParams) LazyRewardBlocks()
+//@   nopanic
+//@   requires r != nil
+//@   ensures result == r.lazyRewardBlocks   [C15]
+
+//@ func (r *GovParams) LazyApplyingBlocks()
+//@   nopanic
+//@   requires r != nil
+//@   ensures result == r.lazyApplyingBlocks   [C15]
+
+//@ func (r *GovParams) MinTrxGas()
+//@   nopanic
+//@   requires r != nil
+//@   ensures result == r.minTrxGas   [C15]
+
+//@ func (r *GovParams) MaxTrxGas()
+//@   nopanic
+//@   requires r != nil
+//@   ensures result == r.maxTrxGas   [C15]
+
+//@ func (r *GovParams) MaxBlockGas()
+//@   nopanic
+//@   requires r != nil
+//@   ensures result == r.maxBlockGas   [C15]
+
+//@ func (r *GovParams) MinVotingPeriodBlocks()
+//@   nopanic
+//@   requires r != nil
+//@   ensures result == r.minVotingPeriodBlocks   [C15]
+
+//@ func (r *GovParams) MaxVotingPeriodBlocks()
+//@   nopanic
+//@   requires r != nil
+//@   ensures result == r.maxVotingPeriodBlocks   [C15]
+
+//@ func (r *GovParams) MinSelfStakeRatio()
+//@   nopanic
+//@   requires r != nil
+//@   ensures result == r.minSelfStakeRatio   [C15]
+
+//@ func (r *GovParams) MaxUpdatableStakeRatio()
+//@   nopanic
+//@   requires r != nil
+//@   ensures result == r.maxUpdatableStakeRatio   [C15]
+
+//@ func (r *GovParams) MaxIndividualStakeRatio()
+//@   nopanic
+//@   requires r != nil
+//@   ensures result == r.maxIndividualStakeRatio   [C15]
+
+//@ func (r *GovParams) SlashRatio()
+//@   nopanic
+//@   requires r != nil
+//@   ensures result == r.slashRatio   [C15]
+
+//@ func (r *GovParams) SignedBlocksWindow()
+//@   nopanic
+//@   requires r != nil
+//@   ensures result == r.signedBlocksWindow   [C15]
+
+//@ func (r *GovParams) MinSignedBlocks()
+//@   nopanic
+//@   requires r != nil
+//@   ensures result == r.minSignedBlocks   [C15]
+
+//@ func (r *GovParams) MinValidatorStake()
+//@   nopanic
+//@   requires r != nil && r.minValidatorStake != nil
+//@   allocates uint256.Int
+//@   ensures result != nil && fresh(result) && u(result) == u(r.minValidatorStake)   [C15]
+
+//@ func (r *GovParams) MinDelegatorStake()
+//@   nopanic
+//@   requires r != nil && r.minDelegatorStake != nil
+//@   allocates uint256.Int
+//@   ensures result != nil && fresh(result) && u(result) == u(r.minDelegatorStake)   [C15]
+
+//@ func (r *GovParams) RewardPerPower()
+//@   nopanic
+//@   requires r != nil && r.rewardPerPower != nil
+//@   allocates uint256.Int
+//@   ensures result != nil && fresh(result) && u(result) == u(r.rewardPerPower)   [C15]
+
+// decoding a governance option / genesis document: each field of the decoded record goes to the parameter of the same name
+//@ func (r *GovParams) UnmarshalJSON(bz)
+//@   requires r != nil
+//@   modifies everything
+//@   assert@store(GovParams.version,0): $target == r && $value == tm.Version   [C15]
+//@   assert@store(GovParams.maxValidatorCnt,0): $target == r && $value == tm.MaxValidatorCnt   [C15]
+//@   assert@store(GovParams.lazyRewardBlocks,0): $target == r && $value == tm.LazyRewardBlocks   [C15]
+//@   assert@store(GovParams.lazyApplyingBlocks,0): $target == r && $value == tm.LazyApplyingBlocks   [C15]
+//@   assert@store(GovParams.minTrxGas,0): $target == r && $value == tm.MinTrxGas   [C15]
+//@   assert@store(GovParams.maxTrxGas,0): $target == r && $value == tm.MaxTrxGas   [C15]
+//@   assert@store(GovParams.maxBlockGas,0): $target == r && $value == tm.MaxBlockGas   [C15]
+//@   assert@store(GovParams.minVotingPeriodBlocks,0): $target == r && $value == tm.MinVotingBlocks   [C15]
+//@   assert@store(GovParams.maxVotingPeriodBlocks,0): $target == r && $value == tm.MaxVotingBlocks   [C15]
+//@   assert@store(GovParams.minSelfStakeRatio,0): $target == r && $value == tm.MinSelfStakeRatio   [C15]
+//@   assert@store(GovParams.maxUpdatableStakeRatio,0): $target == r && $value == tm.MaxUpdatableStakeRatio   [C15]
+//@   assert@store(GovParams.maxIndividualStakeRatio,0): $target == r && $value == tm.MaxIndividualStakeRatio   [C15]
+//@   assert@store(GovParams.slashRatio,0): $target == r && $value == tm.SlashRatio   [C15]
+//@   assert@store(GovParams.signedBlocksWindow,0): $target == r && $value == tm.SignedBlocksWindow   [C15]
+//@   assert@store(GovParams.minSignedBlocks,0): $target == r && $value == tm.MinSignedBlocks   [C15]
+//@   assert@call(stringToUint256,0): $arg0 == tm.MinValidatorStake   [C15]
+//@   assert@call(stringToUint256,1): $arg0 == tm.MinDelegatorStake   [C15]
+//@   assert@call(stringToUint256,2): $arg0 == tm.RewardPerPower   [C15]
+//@   assert@call(stringToUint256,3): $arg0 == tm.GasPrice   [C15,C16]
+
